@@ -660,11 +660,17 @@ impl State {
                     }
                     // formatting parameters (the fixed-column idiom of log lines, `{:16.16}`; fill, alignment, precision
                     // alone) ask for another layout at most, never for a panic
-                    fmt_params(a);
-                    fmt_params(a.get_value());
-                    fmt_typed(a);
+                    // (on frames of ordinary size: thirteen further renderings of a frame of megabytes tell nothing new and
+                    // would count against the time budget of the decoding under test)
+                    if bytes.len() <= 16384 {
+                        fmt_params(a);
+                        fmt_params(a.get_value());
+                        fmt_typed(a);
+                    }
                 }
-                fmt_params(&m);
+                if bytes.len() <= 16384 {
+                    fmt_params(&m);
+                }
                 std::hint::black_box(&acc);
                 let mut v = Vec::new();
                 let re = match m.encode_to(&mut v) {
